@@ -70,7 +70,7 @@ def enum_conic_line(tier, seed):
     conics = sym3()
     for ci, A in enumerate(conics):
         yield ("single", ci)
-    for l in lattice(3, 1):
+    for l in lattice(3, 2 if tier == "thorough" else 1):
         yield ("collection", l)
 
 
@@ -87,7 +87,7 @@ def case_conic_line(ctx, cfg):
 
     form, data = cfg
     conics = sym3()
-    lines = lattice(3, 1)
+    lines = lattice(3, 2 if ctx.tier == "thorough" else 1)
     if form == "single":
         A = conics[data]
         cls = classify_conic(A)
